@@ -452,8 +452,13 @@ var mergePredMode = []ast.ArgMode{ast.ArgModeInput, ast.ArgModeInput, ast.ArgMod
 // mergeDelta updates e.store with facts from e.deltaStore.
 // For facts with custom lattice join operations, replaces facts instead of adding.
 func (e *engine) mergeDelta() error {
+	// Delta facts of merge predicates that the store did not take as they are
+	// (they are dominated, or a merged value replaced them), and the merged
+	// facts that the store took instead.
+	var absorbed, mergedIn []ast.Atom
 	err := factstore.GetAllFacts(e.deltaStore, func(fact ast.Atom) error {
 		pred := fact.Predicate
+		deltaFact := fact
 		fundep, mergePred, ok := e.hasMergePredicate(pred)
 		if !ok {
 			// Default case: just add the new fact.
@@ -539,8 +544,33 @@ func (e *engine) mergeDelta() error {
 		if len(existingFacts) == 0 {
 			e.store.Add(fact)
 		}
+		if !fact.Equals(deltaFact) {
+			absorbed = append(absorbed, deltaFact)
+			isNew := true
+			for _, existingFact := range existingFacts {
+				isNew = isNew && !existingFact.Equals(fact)
+			}
+			if isNew {
+				mergedIn = append(mergedIn, fact)
+			}
+		}
 		return nil
 	})
+	// The delta store must hold what is new in the store and nothing else: a
+	// dominated fact that stays in it can be derived again and again (it is
+	// never found in the store) and keeps the evaluation running for ever.
+	if deltaWithRemove, ok := e.deltaStore.(factstore.FactStoreWithRemove); ok {
+		for _, fact := range absorbed {
+			if !e.store.Contains(fact) {
+				deltaWithRemove.Remove(fact)
+			}
+		}
+		for _, fact := range mergedIn {
+			if e.store.Contains(fact) {
+				e.deltaStore.Add(fact)
+			}
+		}
+	}
 	return err
 }
 
